@@ -4,7 +4,8 @@ Every entry: (function regex, kind regex, argument regex, class, reason).
   class I = infallible by construction, T = reviewed and trusted (depends on a stated assumption),
   F = finding (a hostile or unusual input reaches the panic).
 A site matching no entry is a violation ("unclassified panic-capable site").  Keys never contain line numbers.
-The argument regex is matched against the reconstructed receiver/first operand of the call."""
+The argument regex is matched against the reconstructed receiver/first operand of the call, in which every variable is
+named by its type (`‹Vec<u8>›`): the table never depends on how a local is spelled."""
 
 TABLE = [
     # ---- generated code -------------------------------------------------------------------------------------
@@ -13,13 +14,13 @@ TABLE = [
     # ---- locks and reply channels ---------------------------------------------------------------------------
     (r".*", r"^unwrap$", r"Mutex::lock\(", "T",
      "std::sync::Mutex poisoning: fails only after another thread panicked while holding the lock"),
-    (r"(SignatureVerificationService::verify_\w+|GraphDatabaseService::sign|EventService::subcribe)::\{closure#0\}$", r"^unwrap$", r"^result$", "T",
+    (r"(SignatureVerificationService::verify_\w+|GraphDatabaseService::sign|EventService::subcribe)::\{closure#0\}$", r"^unwrap$", r"^‹Result<.*RecvError>›$", "T",
      "reply of a service task: the sender is dropped only if that task died; relies on the service tasks not panicking (guarded by the other entries of this census)"),
     # ---- reload of room definitions -------------------------------------------------------------------------
     (r"(RoomAuthorisations::load_json|room::load_auth_from_json|room::load_user_from_json)$", r"^unwrap$", r"(Map::get|Value::as_|Option::unwrap)", "T",
      "shape of the JSON produced by the constant LOAD_QUERY over system entities whose rows were validated when written or ingested (RoomNode::parse / validate_room_mutation)"),
     # ---- parameters after validation (C14-R2) ---------------------------------------------------------------
-    (r"(DeletionQuery::build|MutationQuery::base64_field|MutationQuery::get_mutate_query)$", r"^unwrap$", r"HashMap::get\(&\*parameters\.params", "I",
+    (r"(DeletionQuery::build|MutationQuery::base64_field|MutationQuery::get_mutate_query)$", r"^unwrap$", r"HashMap::get\(&\*‹Parameters›\.params", "I",
      "Variables::validate_params dominates (C14-R2): every declared variable is present"),
     (r"DeletionQuery::build$", r"^unwrap$", r"ParamValue::as_string", "I",
      "deletion variables are declared Base64 not nullable by the deletion parser; validate_params enforces a string"),
@@ -42,23 +43,23 @@ TABLE = [
     (r"system_entities::.*add::\{closure#0\}$", r"^unwrap$", r"Vec::pop", "T", "result of a query on a row written just before; len checked"),
     (r"system_entities::.*create::\{closure#0\}$", r"^unwrap$", r"ResultParser::", "T", "result of the mutation executed on the previous line (own constant mutation text)"),
     (r"system_entities::init_allowed_peers::\{closure#0\}$", r"^unwrap$", r"_json", "I", "peer node built by Peer::create with a json body"),
-    (r"room_node::prepare_auth_with_history$", r"^expect$", r"HashMap::get\(&\*room\.authorisations", "T",
+    (r"room_node::prepare_auth_with_history$", r"^expect$", r"HashMap::get\(&\*‹Room›\.authorisations", "T",
      "old_auth comes from the stored definition of the same room (RoomNode::read of room.id): the group exists in the in-memory room built from the same rows"),
-    (r"InboundQueryService::process_inbound::\{closure#0\}$", r"^unwrap$", r"^val$", "T", "the instance's own peer row, written at start-up by init_allowed_peers"),
+    (r"InboundQueryService::process_inbound::\{closure#0\}$", r"^unwrap$", r"^‹Option<Node>›$", "T", "the instance's own peer row, written at start-up by init_allowed_peers"),
     (r"LocalPeerService::synchronise_last_day::\{closure#0\}$", r"^unwrap$", r"last_data_date", "I",
      "reached only when remote.history_hash is Some and equal to the local one and remote.last_data_date == local.last_data_date; a local history hash implies a local last date"),
     (r"peer_connection_service::.*process_event::\{closure#0\}$", r"^unwrap$", r"uid_decode", "I", "room keys of DataModification are produced by uid_encode in the same process"),
     (r"DailyLog::sort_rooms::\{closure#0\}$", r"^unwrap$", r"partial_cmp", "I", "partial_cmp of two i64 is always Some"),
     (r"(EntityMutation::aliased_name|QueryField::name)$", r"^unwrap$", r"alias", "I", "guarded by is_some() in the same expression (if self.alias.is_some())"),
-    (r"DataModel::(insert|update_with)$", r"^unwrap$", r"HashMap::(get|get_mut|remove)\(&(\*self|new_data_model)\.namespace", "I", "namespace_ids and namespaces are filled together (insert / parse_internal)"),
-    (r"DataModel::get_entity$", r"^index$", r"split", "I", "indices 0 and 1 under split.len() == 2"),
+    (r"DataModel::(insert|update_with)$", r"^unwrap$", r"HashMap::(get|get_mut|remove)\(&\*?‹DataModel›\.namespace", "I", "namespace_ids and namespaces are filled together (insert / parse_internal)"),
+    (r"DataModel::get_entity$", r"^index$", r"^&‹Vec<str>›$", "I", "indices 0 and 1 under split.len() == 2"),
     (r"Entity::insert_field$", r"^panic!$", r".*", "T", "duplicate field names are rejected by add_field / Entity::update before insert_field is called"),
     (r"data_model_parser::validate_json_for_entity$", r"^unwrap$", r"as_object", "I", "is_object() tested just above"),
     (r"Parameters::from_json$", r"^unwrap$", r"Number::as_", "I", "each as_x follows the matching is_x test"),
-    (r"(NodeToInsert::update_daily_logs|<database::node::NodeToInsert as .*Writeable>::write|write)$", r"^unwrap$", r"self\.node", "I", "is_none() -> return on the previous line"),
-    (r"graph_database::build_path$", r"^index$", r"file_name", "I", "file name is the base64 of a 32 byte hash computed locally"),
-    (r"MutationQuery::(to_json|result)$", r"^index$", r"(mutas|inserts)", "I", "lengths compared equal just above; index from 0..len"),
-    (r"InsertEntity::fill_json$", r"^index$", r"sub\.1", "T", "sub_nodes vectors are filled by the mutation builder with one element per parsed sub-entity (non empty for Entity fields)"),
+    (r"(NodeToInsert::update_daily_logs|<database::node::NodeToInsert as .*Writeable>::write|write)$", r"^unwrap$", r"‹[^›]*›\.node", "I", "is_none() -> return on the previous line"),
+    (r"graph_database::build_path$", r"^index$", r"^&\*‹String›$", "I", "file name is the base64 of a 32 byte hash computed locally"),
+    (r"MutationQuery::(to_json|result)$", r"^index$", r"‹Vec<InsertEntity>›", "I", "lengths compared equal just above; index from 0..len"),
+    (r"InsertEntity::fill_json$", r"^index$", r"‹\(String, Vec<InsertEntity>\)›\.1", "T", "sub_nodes vectors are filled by the mutation builder with one element per parsed sub-entity (non empty for Entity fields)"),
     (r"query::get_paging$", r"^index$", r"(order_by|paging)", "T", "before/after values are checked against order_by length by the query parser (EntityQuery::finalize)"),
     (r"EntityQuery::finalize$", r"^index$", r"order_by", "I", "index bounded by the loop over the same length"),
     (r"SingleQuery::add_param$", r"^index$", r"var_order", "I", "index from 0..var_order.len()"),
@@ -76,13 +77,13 @@ TABLE = [
     (r"security::import_verifying_key$", r"^unwrap$", r"try_into", "I", "slice 1..33 of a 33 byte key (length tested above) converts to [u8; 32]"),
     (r"security::import_verifying_key$", r"^assert:BoundsCheck$", r".*", "F",
      "FINDING empty-verifying-key: veriying_key[0] is read before the length test: a row or identity answer with an empty key panics the verification thread"),
-    (r"verify$", r"^unwrap$", r"try_into\(&\*signature\)", "I", "signature.len() == 64 tested just above"),
+    (r"verify$", r"^unwrap$", r"try_into\(&\*‹\[u8\]›\)", "I", "signature.len() == 64 tested just above"),
     (r"PeerManager::circuit_id$", r"^assert:BoundsCheck$", r".*", "I", "v is built from exactly two keys"),
     (r"(PeerManager::invite_accepted::\{closure#0\}|remove_tokens::\{closure#0\})$", r"^remove$", r".*", "I", "index returned by position() on the same vector just above"),
     # ---- network frames -------------------------------------------------------------------------------------
-    (r"(endpoint|beacon)::.*", r"^unwrap$", r"try_into\((Result::unwrap\(len\)|len|wait|Vec::len)", "I", "u32 <-> usize conversion on 64 bit targets / small local values"),
-    (r"(endpoint|beacon)::.*", r"^(index|index_mut)$", r"buf", "I", "slice 0..len of a buffer whose length was raised to len just above (R3 decides that len is bounded)"),
-    (r"endpoint::.*start_accepted::\{closure#0\}$", r"^unwrap$", r"(answer|query|event)_receiv", "I", "each receiver is set in the same branch as its sender; the three senders are tested for is_none() above"),
+    (r"(endpoint|beacon)::.*", r"^unwrap$", r"try_into\((Result::unwrap\(‹[^›]*›\)|‹u32›|‹usize›|Vec::len)", "I", "u32 <-> usize conversion on 64 bit targets / small local values"),
+    (r"(endpoint|beacon)::.*", r"^(index|index_mut)$", r"‹Vec<u8>›", "I", "slice 0..len of a buffer whose length was raised to len just above (R3 decides that len is bounded)"),
+    (r"endpoint::.*start_accepted::\{closure#0\}$", r"^unwrap$", r"^‹Option<RecvStream>›$", "I", "each receiver is set in the same branch as its sender; the three senders are tested for is_none() above"),
     (r"MeetingPoint::add_tokens::\{closure#0\}$", r"^unwrap$", r"(header|serialize_into)", "T", "beacon server: the header is stored before add_tokens is called for a connection; serialisation into a Vec does not fail"),
     # ---- dates ----------------------------------------------------------------------------------------------
     (r"date_utils::(date|date_next_day)$", r"^(unwrap|add)$", r".*", "F",
